@@ -116,13 +116,14 @@ def exact_milli(x, tol=1e-9):
 # C08: national summary
 
 
-def run_summary_injected(ns, alpha=0.9):
+def run_summary_injected(ns, alpha=0.9, sigmoid_T=None):
     """ns: a NationalSummary scenario (p, b1, b2 per contest in thousandths, w, lhs, rhs, stop, corr, base, nweights).
     Drives the real get_aggregate_predictions -> get_aggregate_prediction_intervals -> get_national_summary_estimates."""
     from elexmodel.models.BootstrapElectionModel import BootstrapElectionModelException
 
     contests = sorted(ns["p"])
-    model = new_model(B=2, national_summary_correlation=bool(ns["corr"]))
+    extra = {} if sigmoid_T is None else {"agg_model_hard_threshold": False, "T": sigmoid_T}
+    model = new_model(B=2, national_summary_correlation=bool(ns["corr"]), **extra)
     preds = [ns["p"][c] for c in contests]
     inject(model, preds, [ns["b1"][c] for c in contests])
     model.errors_B_2 = np.asarray([ns["b2"][c] for c in contests], dtype=float)
@@ -139,6 +140,9 @@ def run_summary_injected(ns, alpha=0.9):
         out = model.get_national_summary_estimates(weights, ns["base"], alpha)["margin"]
     except BootstrapElectionModelException:
         return {"kind": "error", "pred": 0, "lower": 0, "upper": 0}
+    if sigmoid_T is not None:
+        # the sigmoid summary is a real number (reported with two decimals): hundredths
+        return {"kind": "ok", "pred": int(round(out[0] * 100)), "lower": int(round(out[1] * 100)), "upper": int(round(out[2] * 100))}
     vals = []
     for v in out:
         if abs(v - round(v)) > 1e-9:
@@ -199,7 +203,7 @@ def client_record(seed, with_lists=True):
     from harness import synth
 
     rnd = _r.Random(seed)
-    district = rnd.random() < 0.35
+    district = rnd.random() < 0.35 and seed % 5 != 0
     states = ("AA", "BB", "CC") if rnd.random() < 0.6 else ("AA", "BB", "CC", "DD")
     n = rnd.choice([48, 60, 72])
     # some elections are fully reported (no outstanding unit anywhere): calls and stops must still be honoured
@@ -219,6 +223,23 @@ def client_record(seed, with_lists=True):
         nonrep = cur[cur.percent_expected_vote < 100].geographic_unit_fips.tolist()
         far = set(rnd.sample(nonrep, min(len(nonrep), 4)))
         pre.loc[pre.geographic_unit_fips.isin(far), "x1"] = [rnd.choice([-60.0, 60.0]) for _ in range(int(pre.geographic_unit_fips.isin(far).sum()))]
+    empty_contest = (not district) and (seed % 5 == 0 or rnd.random() < 0.2)
+    if empty_contest:
+        # a contest in which nothing can be predicted yet: its only unit has a zero baseline and no votes (set aside by
+        # the model), so its margin is 0 / 0 - a call or a stop for it must be honoured all the same (seeded change C07_E)
+        states = tuple(states) + ("ZE",)
+        row = pre.iloc[0].copy()
+        row["postal_code"], row["geographic_unit_fips"], row["county_fips"] = "ZE", "ZE000_9999", "ZE000"
+        for c in ("baseline_turnout", "baseline_dem", "baseline_gop"):
+            row[c] = 0
+        pre = pd.concat([pre, pd.DataFrame([row])], ignore_index=True)
+        pre = synth.with_margin_features(pre)
+        crow = cur.iloc[0].copy()
+        crow["postal_code"], crow["geographic_unit_fips"] = "ZE", "ZE000_9999"
+        for c in ("results_turnout", "results_dem", "results_gop"):
+            crow[c] = 0
+        crow["percent_expected_vote"] = rnd.choice([0, 100])
+        cur = pd.concat([cur, pd.DataFrame([crow])], ignore_index=True)
     office = "H" if district else "G"
     gut = "precinct-district" if district else "precinct"
     aggs = ["postal_code", "county_fips"] if not district else ["postal_code", "district", "county_fips"]
@@ -226,6 +247,15 @@ def client_record(seed, with_lists=True):
         aggs.append("county_classification")
     rnd.shuffle(aggs)
     mp = {"B": rnd.choice([2, 3, 10, 40])}
+    if rnd.random() < 0.5:
+        # units the model sets aside itself (blocklisted, some of them reporting with votes; one with a zero baseline):
+        # they carry a county and a classification, so they are part of those groups' counted votes (seeded change C06_E)
+        ids = pre.geographic_unit_fips.tolist()
+        mp["unit_blocklist"] = rnd.sample(ids, 4)
+        z = rnd.choice([i for i in ids if i not in mp["unit_blocklist"]])
+        for c in ("baseline_turnout", "baseline_dem", "baseline_gop"):
+            pre.loc[pre.geographic_unit_fips == z, c] = 0
+        pre = synth.with_margin_features(pre)
     lam = rnd.choice([0, 1.0, None])
     if lam is not None:
         mp["lambda_"] = lam
@@ -238,6 +268,8 @@ def client_record(seed, with_lists=True):
     lhs = rhs = stop = []
     if with_lists:
         roles = {c: rnd.choice(["L", "R", "N", "N", "N"]) for c in contests}
+        if empty_contest:
+            roles["ZE"] = ("L", "R")[seed % 2] if seed % 5 == 0 else rnd.choice(["L", "R", "N"])
         lhs = [c for c in contests if roles[c] == "L"]
         rhs = [c for c in contests if roles[c] == "R"]
         stop = [c for c in contests if rnd.random() < 0.25]
@@ -308,7 +340,8 @@ def client_record(seed, with_lists=True):
             }
         )
     return {"kind": "client", "lhs": lhs, "rhs": rhs, "stop": stop, "alphas": alphas, "district": district, "B": mp["B"],
-            "lambda": "cv" if lam is None else lam, "stress": stress, "fully_reported": frac == 1.0, "presidential": bool(pres), "groups": groups, "units": units}
+            "lambda": "cv" if lam is None else lam, "stress": stress, "fully_reported": frac == 1.0, "presidential": bool(pres), "groups": groups, "units": units,
+            "set_aside": len(mp.get("unit_blocklist", [])), "empty_contest": bool(empty_contest and with_lists and roles.get("ZE") in ("L", "R"))}
 
 
 def known_part_record(rnd):
